@@ -990,6 +990,10 @@ def check_C11(A: Analysis, tier):
     from .rules_locks import listing_loop_rule
     listing_loop_rule(A, rh11)
     rules.append(rh11)
+    ri11 = Rule("C11", "C11.i", "the listing of a pid's metadata directory is literal (shared with C18.g): a glob over an unescaped store path lists nothing "
+                "or something else, and the delete-all forms then leave the pid's documents in place", floor=0)
+    glob_rule(A, ri11)
+    rules.append(ri11)
     return rules
 
 
@@ -1476,6 +1480,19 @@ def whole_line_rule(A, rule):
             rule.fail(f, "comparison with the identifier", f"{fq} no longer compares each stripped line with the identifier for equality", A.p.loc(f, f.node))
 
 
+def glob_rule(A, rule):
+    seen18 = set()
+    for it, ev in all_events(A, PUBLIC_API, ALL_MODES):
+        if ev.extra and ev.extra.get("glob") and (ev.func.qual, ev.line) not in seen18:
+            seen18.add((ev.func.qual, ev.line))
+            rule.ob()
+            rule.inst(f"{ev.func.qual}:{ev.line} glob")
+            if not ev.extra.get("escaped"):
+                rule.fail(site_func(ev), site_text(ev), "glob pattern built from a path that was not passed through glob.escape: pattern characters in the store "
+                          "path (an accepted configuration) are interpreted - the listing comes back empty or lists other directories, so the delete-all "
+                          "forms remove nothing (or something else)", site_loc(A, ev))
+
+
 def check_C18(A: Analysis, tier):
     rules = []
     ra = Rule("C18", "C18.a", "pid and format_id reach a path only through the store hash (never raw)", floor=40)
@@ -1555,4 +1572,9 @@ def check_C18(A: Analysis, tier):
                     continue
                 rd.fail(site_func(ev), site_text(ev), f"{ev.kind} destination {show(t)[:100]} is not rooted at the store root", site_loc(A, ev))
     rules.append(rd)
+    rg18 = Rule("C18", "C18.g", "a directory is listed literally: where glob is used, the directory part of the pattern went through glob.escape - the "
+                "characters of a store path or identifier are never read as a pattern (`[v2]`, `*`, `?` in the configured store path would make "
+                "the listing miss the directory, or reach other directories)", floor=0)
+    glob_rule(A, rg18)
+    rules.append(rg18)
     return rules
